@@ -126,9 +126,12 @@ func hreqOp(c *Ctx, op string) {
 		req := httptest.NewRequest(http.MethodPost, "/s/m", body)
 		req.ProtoMajor, req.ProtoMinor, req.Proto = 2, 0, "HTTP/2.0"
 		req.Header["Content-Type"] = []string{ctFor(proto, kind, "raw")}
-		encH, _ := encHeaderFor(proto, kind)
+		encH, accH := encHeaderFor(proto, kind)
 		if sent != "" {
 			req.Header[encH] = []string{sent}
+		}
+		if acc := string(unhx(a["acc"])); a["acc"] != "" && acc != "" {
+			req.Header[accH] = []string{acc} // what the peer is willing to *receive* says nothing about what it sent
 		}
 		if tmo != "" {
 			if proto == "connect" {
@@ -293,6 +296,12 @@ func streamReq(c *Ctx) {
 	for _, proto := range protos {
 		for _, kind := range kinds {
 			if !(proto == "connect" && kind == "unary") {
+				for _, sent := range []string{"", "identity"} {
+					for _, acc := range []string{"rle", "gzip,rle", ""} {
+						body := append(frame(1, rleCompress([]byte{4, 4, 4, 4})), frame(0, []byte{2})...)
+						hreqOp(c, fmt.Sprintf("hreq proto=%s kind=%s max=0 sent=%s tmo=- flat=%s tail=eof seg=- acc=%s", proto, kind, hx([]byte(sent)), hx(body), hx([]byte(acc))))
+					}
+				}
 				for _, fl := range []byte{2, 4, 8, 64, 128, 3, 129} {
 					for _, sent := range []string{"", "rle"} {
 						hreqOp(c, fmt.Sprintf("hreq proto=%s kind=%s max=0 sent=%s tmo=- flat=%s tail=eof seg=-", proto, kind, hx([]byte(sent)), hx(frame(fl, nil))))
@@ -349,7 +358,11 @@ func streamReq(c *Ctx) {
 					}
 				}
 				cuts := randomCuts(r, len(flat), r.Intn(4))
-				hreqOp(c, fmt.Sprintf("hreq proto=%s kind=%s max=%d sent=%s tmo=%s flat=%s tail=%s seg=%s", proto, kind, max, hx([]byte(sent)), hx([]byte(tmo)), hx(flat), tail, showCuts(cuts)))
+				acc := ""
+				if r.Chance(40) {
+					acc = []string{"rle", "gzip", "rle,gzip", "gzip, rle", "zz"}[r.Intn(5)]
+				}
+				hreqOp(c, fmt.Sprintf("hreq proto=%s kind=%s max=%d sent=%s tmo=%s flat=%s tail=%s seg=%s acc=%s", proto, kind, max, hx([]byte(sent)), hx([]byte(tmo)), hx(flat), tail, showCuts(cuts), hx([]byte(acc))))
 			}
 		}
 	}
